@@ -332,6 +332,25 @@ Proof.
 Qed.
 Print Assumptions C20_gen_alternate.
 
+(* a signal without a run of max(N,2) equal consecutive answers makes the
+   generated loop call no callback at all — for every admissible clock *)
+Theorem C20_gen_flap_never_fires : forall name config clk logger t0 rs,
+  let w0 := Gen.NewStateChangeWatcher name config clk logger in
+  0 <= t0 -> settings_ok (repr_cfg config) -> gen_clock_ok w0 t0 rs ->
+  ~ has_run (Z.max (Gen.Config_ConsecutiveN config) 2) (map r_obs rs) ->
+  concat (gen_run w0 rs) = [].
+Proof.
+  intros name config clk logger t0 rs w0 Ht0 HP Hok Hno.
+  destruct (C20_gen_init name config clk logger) as [Hinit Hcfg]. fold w0 in Hinit, Hcfg.
+  pose proof (C20_gen_run rs w0 t0) as H. cbv zeta in H. rewrite Hcfg, Hinit in H.
+  destruct (H Ht0 HP Hok) as (_ & Hobs & Hrun & _).
+  rewrite Hrun, callbacks_reactions.
+  destruct (reactions (run (repr_cfg config) init t0 (script_of w0 t0 rs))) eqn:E; [reflexivity|].
+  exfalso. apply Hno. rewrite <- Hobs.
+  apply (fire_has_run (repr_cfg config) (script_of w0 t0 rs) t0). rewrite E. discriminate.
+Qed.
+Print Assumptions C20_gen_flap_never_fires.
+
 Lemma map_split_at {A B} (f : A -> B) (l : list A) : forall pre y post,
   map f l = pre ++ y :: post ->
   exists pre' x post', l = pre' ++ x :: post' /\ map f pre' = pre /\ f x = y /\ map f post' = post.
